@@ -14,6 +14,7 @@ import (
 	"fmt"
 	"net"
 	"strings"
+	"sync"
 
 	"github.com/q191201771/naza/pkg/nazaerrors"
 
@@ -68,6 +69,8 @@ type ServerCommandSession struct {
 	subSession *SubSession
 
 	describeSeq  string // only for sub session
+	describedMu  sync.Mutex
+	describedSdp []byte // only for sub session: the sdp DESCRIBE was answered with (set by feedSdp, which may run in the goroutine of the input)
 	isWebSocket  bool
 	websocketKey string
 }
@@ -278,6 +281,13 @@ func (session *ServerCommandSession) handleOptions(requestCtx nazahttp.HttpReqMs
 func (session *ServerCommandSession) handleAnnounce(requestCtx nazahttp.HttpReqMsgCtx) error {
 	Log.Infof("[%s] < R ANNOUNCE", session.uniqueKey)
 
+	if session.pubSession != nil || session.subSession != nil {
+		// one connection carries one pub or sub session. A second one would replace the reference kept here, and the
+		// first one would never be removed from its group when the connection ends: its stream name stayed occupied
+		Log.Errorf("[%s] ANNOUNCE but session already exist.", session.uniqueKey)
+		return nazaerrors.Wrap(base.ErrRtsp)
+	}
+
 	urlCtx, err := base.ParseRtspUrl(requestCtx.Uri)
 	if err != nil {
 		Log.Errorf("[%s] parse presentation failed. uri=%s", session.uniqueKey, requestCtx.Uri)
@@ -331,6 +341,27 @@ func (session *ServerCommandSession) handleDescribe(requestCtx nazahttp.HttpReqM
 		return err
 	}
 
+	if session.pubSession != nil || session.subSession != nil {
+		// see handleAnnounce. A repeated DESCRIBE of the presentation this connection has already been answered for
+		// (and is not playing yet) gets the same description again, nothing new is created; anything else is refused
+		if session.pubSession == nil && session.subSession.Url() == urlCtx.Url &&
+			session.subSession.Stage.Load() == SubSessionStageWriteSdp {
+			session.describedMu.Lock()
+			describedSdp := session.describedSdp
+			session.describedMu.Unlock()
+			if describedSdp != nil {
+				resp := PackResponseDescribe(requestCtx.Headers.Get(HeaderCSeq), string(describedSdp))
+				if session.isWebSocket {
+					session.writeWsFrameHeader(len([]byte(resp)))
+				}
+				_, err = session.conn.Write([]byte(resp))
+				return err
+			}
+		}
+		Log.Errorf("[%s] DESCRIBE but session already exist.", session.uniqueKey)
+		return nazaerrors.Wrap(base.ErrRtsp)
+	}
+
 	session.describeSeq = requestCtx.Headers.Get(HeaderCSeq)
 
 	session.subSession = NewSubSession(urlCtx, session)
@@ -352,6 +383,10 @@ func (session *ServerCommandSession) handleDescribe(requestCtx nazahttp.HttpReqM
 func (session *ServerCommandSession) feedSdp(rawSdp []byte) error {
 	sdpCtx, _ := sdp.ParseSdp2LogicContext(rawSdp)
 	session.subSession.InitWithSdp(sdpCtx)
+
+	session.describedMu.Lock()
+	session.describedSdp = rawSdp
+	session.describedMu.Unlock()
 
 	resp := PackResponseDescribe(session.describeSeq, string(rawSdp))
 	if session.isWebSocket {
